@@ -828,6 +828,25 @@ def execute(cls, scenario, ctx):
                                    again=again[:3]))
             else:
                 ctx.probe("repeat_identical")
+            # the outcome is a function of the TEXT: the same characters
+            # handed over as a text stream and as a str give the same
+            # datetime / tokens / exception type (the message quotes the
+            # input object and may differ)
+            if op[2][0] in ("stringio", "charstream") and i % 2 == 0:
+                twin = _copy.deepcopy(op)
+                twin[2] = ["str", op[2][1]]
+                env.restore(snap)
+                t = run_call(env, ctx, twin, "as-str")
+                if t is None:
+                    continue
+                ctx.checks += 1
+                same = t[:2] == out[:2] if out[0] == "exc" else t == out
+                if not same:
+                    ctx.violation("C14.depends_on_input_form",
+                                  dict(call=short(op), as_stream=out[:3],
+                                       as_str=t[:3]))
+                else:
+                    ctx.probe("stream_and_str_identical")
         ctx.sim_clock_span = env.clock.span()
         if (len(done) >= 3 and len(classes) >= 2) or ctx.faults:
             ctx.nontrivial = True
